@@ -143,6 +143,33 @@ func runC03(c *rt.Ctx) {
 			}
 		}
 	}
+	// (1b) the chunked L1 handler under the single-reader wrapper (what memproxy --chunked --locked
+	// deploys): a command is many backend requests, all inside the key's lock
+	{
+		cfg := Cfg{Orca: "l1l2b", Lock: "single", Proto: "binary", L1H: "chunked", Conc: 4}
+		ops0 := concOps(true, "a", "b", "0")
+		ops1 := concOps(true, "a", "b", "1")
+		for _, ni := range initStates("a") {
+			if ni.Name != "both" && !c.Thorough() {
+				continue
+			}
+			for _, ports := range [][2]int{{0, 1}, {0, 0}} {
+				for _, o0 := range ops0 {
+					for _, o1 := range ops1 {
+						item++
+						if !c.Mine(item) {
+							continue
+						}
+						if c.Expired() {
+							return
+						}
+						sc := ConcScenario{Harness: "C03", Cfg: cfg, Init: ni.Ops, Threads: []ConcThread{{Port: ports[0], Ops: []wire.Op{o0}}, {Port: ports[1], Ops: []wire.Op{o1}}}}
+						explore(sc, 2)
+					}
+				}
+			}
+		}
+	}
 	// (2) two commands per connection over two keys that share a stripe (concurrency 0) and that
 	// do not (concurrency 1), and (3) two writers plus a multi-key reader
 	k1, k2 := "a", "b"
